@@ -25,7 +25,7 @@ var (
 	smF    = CfgLit{Origins: []string{"https://a.example"}}
 	smG    = CfgLit{Origins: []string{"https://a.example", "https://*.a.example"}, Credentialed: true, Methods: []string{"PUT"}, Status: 200}
 	smH    = CfgLit{Origins: []string{"*"}, Methods: []string{"DELETE", "PATCH"}, MaxAge: 30, ResponseHeaders: []string{"X-R"}}
-	smI    = CfgLit{Origins: []string{"https://a.example"}, RequestHeaders: []string{"X-A"}, Status: 299, MaxAge: -1}
+	smI    = CfgLit{Origins: []string{"https://a.example"}, RequestHeaders: []string{"X-A", "Accept", "Accept-Language", "Content-Language", "Content-Type", "Range"}, Status: 299, MaxAge: -1}
 	smCfgs = map[string]CfgLit{"A": smA, "B": smB, "C": smC, "D": smD, "E": smE, "F": smF, "G": smG, "H": smH, "I": smI}
 	smDiag = []string{"A", "B", "C", "D", "E", "F", "G", "H", "I"}
 )
